@@ -28,7 +28,51 @@ func (vc *VC) instr(in ssa.Instruction, h *Heap) {
 	if vc.skipped(in) {
 		return
 	}
+	if vc.parent == nil && vc.ct != nil && len(vc.ct.Covers) > 0 {
+		vc.coverCheck(in)
+	}
 	vc.instr1(in, h)
+}
+
+// coverCheck: `reachable[label] "<text>"` - the first instruction of the function whose source line
+// contains <text> gets a cover obligation: its path condition together with everything established
+// before it (requires, callee postconditions, invariants - quantified facts included) must not be
+// refutable. `unsat` = the statement is dead code under the contracts; `sat`/`unknown` = fine.
+func (vc *VC) coverCheck(in ssa.Instruction) {
+	p := in.Pos()
+	if !p.IsValid() {
+		return
+	}
+	fset := vc.P.Prog.Fset
+	f := fset.File(p)
+	if f == nil {
+		return
+	}
+	src := vc.srcBytes(f.Name())
+	if src == nil {
+		return
+	}
+	ln := f.Line(p)
+	a := f.Offset(f.LineStart(ln))
+	b := len(src)
+	if ln < f.LineCount() {
+		b = f.Offset(f.LineStart(ln + 1))
+	}
+	if a < 0 || b > len(src) || a > b {
+		return
+	}
+	text := normWS(string(src[a:b]))
+	if vc.coverSeen == nil {
+		vc.coverSeen = map[string]bool{}
+	}
+	for _, c := range vc.ct.Covers {
+		if vc.coverSeen[c.Label] || !strings.Contains(text, normWS(c.Text)) {
+			continue
+		}
+		vc.coverSeen[c.Label] = true
+		vc.addObl(&Obligation{Name: fmt.Sprintf("%s/reachable[%s]", vc.key, c.Label), Kind: "cover", Goal: vc.curR, Expect: "sat",
+			Pos: vc.pos(p), Src: fmt.Sprintf("the statement %q can be executed: the contracts of the callees and the requires clause do not rule its path condition out", c.Text)})
+	}
 }
 
 // skipped reports whether the instruction only feeds logging (see logonly.go).
@@ -307,7 +351,10 @@ func (vc *VC) nilObl(in ssa.Instruction, a Addr, p token.Pos) {
 
 func (vc *VC) panicSite(p token.Pos, what string) {
 	if !vc.wantNoPanic() {
-		return
+		r := vc.root()
+		if !(r.ct != nil && r.ct.Flags["nopanic-explicit"] && vc.parent == nil && (what == "explicit panic" || what == "panic")) {
+			return
+		}
 	}
 	vc.addObl(&Obligation{Name: fmt.Sprintf("%s/nopanic@%s[panic]", vc.key, vc.pos(p)), Kind: "nopanic",
 		Goal: not(vc.curR), Pos: vc.pos(p), Src: what + " unreachable"})
@@ -438,6 +485,15 @@ func (vc *VC) binop(op token.Token, t types.Type, xs, ys []string, yv ssa.Value)
 			if c, ok := yv.(*ssa.Const); ok && c.Value != nil {
 				if n, ok := constInt(c); ok && n >= 0 && n < 63 {
 					return fmt.Sprintf("(div %s %d)", x, int64(1)<<uint(n))
+				}
+			}
+		case token.AND:
+			// x & (2^k - 1) on an unsigned operand is x mod 2^k
+			if b, isB := t.Underlying().(*types.Basic); isB && b.Info()&types.IsUnsigned != 0 {
+				if c, ok := yv.(*ssa.Const); ok && c.Value != nil {
+					if m, ok := constInt(c); ok && m >= 0 && m < (int64(1)<<62) && (m+1)&m == 0 {
+						return fmt.Sprintf("(mod %s %d)", x, m+1)
+					}
 				}
 			}
 		}
